@@ -258,7 +258,7 @@ type sysCase struct {
 	// Rules - a rule set that differs from Rules in one rule's enabled flag, host or scheme constraint only. Whatever
 	// was loaded before, a request is handled under the rules loaded last (seeded change C01-m5: a reload skipped
 	// when the rule list "looks unchanged"). The model sees Rules only.
-	Sibling    []hx.RuleSpec
+	Sibling []hx.RuleSpec
 	// InFlight: the reload goes the other way round and lands WHILE the request is with its first destination: the
 	// router is built with Rules, and the sibling set is loaded (Router.SetRules) from inside the performer's first Do.
 	// "Each request is handled entirely under one version of the rules" (C19): the request started under Rules and
